@@ -148,7 +148,8 @@ def _rand_value(r: Rng, depth: int, allow_default: bool) -> typing.Any:
         return [r.choice(SCALARS) for _ in range(r.between(0, 3))]
     if k == "default":
         return {D: r.choice(SCALARS)}
-    return {r.choice(SUB_KEYS): _rand_value(r, depth + 1, allow_default) for _ in range(r.between(1, 3))}
+    # (now and then an EMPTY map: a union with nothing - it keeps what is there, and replaces a non-map by an empty map)
+    return {r.choice(SUB_KEYS): _rand_value(r, depth + 1, allow_default) for _ in range(r.weighted([(0, 1), (1, 4), (2, 4), (3, 3)]))}
 
 
 def _rand_section_doc(r: Rng, allow_default: bool) -> dict:
